@@ -244,9 +244,19 @@ fn gen_parameterized(rng: &mut Rng, k: usize) -> Pair {
 fn gen_selection(rng: &mut Rng, k: usize) -> Pair {
     let cho = spell(rng, "Cho", k, true);
     let n_alt = 2 + rng.below(4);
-    let alt_types: Vec<String> = (0..n_alt).map(|_| rng.pick(&["INTEGER", "BOOLEAN", "UTF8String", "NULL", "OCTET STRING", "INTEGER (0..7)", "SEQUENCE OF BOOLEAN"]).to_string()).collect();
+    // alternatives may carry constraints that refer to a value or to named numbers of another type: the
+    // selection type has to be replaced by the alternative as it is *after* those references were resolved
+    let up = spell(rng, "upper", k, false);
+    let lvl = spell(rng, "Lvl", k, true);
+    let upv = 3 + rng.below(60);
+    let support = format!("{up} INTEGER ::= {upv}\n{lvl} ::= INTEGER {{ lo(3), hi(5) }}\n");
+    let pool: Vec<String> = vec![
+        "INTEGER".into(), "BOOLEAN".into(), "UTF8String".into(), "NULL".into(), "OCTET STRING".into(), "INTEGER (0..7)".into(), "SEQUENCE OF BOOLEAN".into(),
+        format!("INTEGER (0..{up})"), format!("{lvl} (lo..hi)"), format!("OCTET STRING (SIZE(1..{up}))"), format!("INTEGER ({up})"),
+    ];
+    let alt_types: Vec<String> = (0..n_alt).map(|_| rng.pick(&pool).to_string()).collect();
     let alts: Vec<String> = alt_types.iter().enumerate().map(|(i, t)| format!("alt{i} {t}")).collect();
-    let choice = format!("{cho} ::= CHOICE {{ {} }}\n", alts.join(", "));
+    let choice = format!("{support}{cho} ::= CHOICE {{ {} }}\n", alts.join(", "));
     let pick = rng.below(n_alt);
     let sel = spell(rng, "Sel", k, true);
     let holder = spell(rng, "Hold", k, true);
@@ -319,7 +329,7 @@ fn fields_of(items: &[(String, String)], name: &str) -> Option<Vec<String>> {
 pub fn run(cfg: &RunCfg) -> Report {
     let mut rep = Report::new(
         "C09",
-        "pairs (sugared module, hand-expanded module): value references through chains of 1..4 and named numbers (own type and parent type) in value / SIZE constraints at top level and in components; COMPONENTS OF in environments of 2..5 SEQUENCEs (tail position and anywhere, with and without extension markers, chains, occasional cycles); parameterized types with 1..3 type / value parameters instantiated 1..3 times; selection types at top level and in a component; fixed-type class field types at top level and in components. Referenced names are spelled to sort before and after the referencing name and definitions are written before or after their use. Oracle: the items of every target definition are token-identical in the two compilations. Model tie (COMPONENTS OF): field order of the generated struct = members of the Lean linker model; spec = X.680 25.5 expansion",
+        "pairs (sugared module, hand-expanded module): value references through chains of 1..4 and named numbers (own type and parent type) in value / SIZE constraints at top level and in components; COMPONENTS OF in environments of 2..5 SEQUENCEs (tail position and anywhere, with and without extension markers, chains, occasional cycles); parameterized types with 1..3 type / value parameters instantiated 1..3 times; selection types at top level and in a component, of alternatives whose constraints refer to values / named numbers; fixed-type class field types at top level and in components. Referenced names are spelled to sort before and after the referencing name and definitions are written before or after their use. Oracle: the items of every target definition are token-identical in the two compilations. Model tie (COMPONENTS OF): field order of the generated struct = members of the Lean linker model; spec = X.680 25.5 expansion",
     );
     let pairs: Vec<Pair> = if let Some(r) = &cfg.replay {
         vec![Pair::from_json(r.get("case").unwrap_or(r))]
